@@ -142,7 +142,7 @@ fn observe_orders(d: usize) -> (usize, usize, bool) {
 
 pub fn run(tier: Tier) -> i32 {
     let mut rep = Report::new("C12", tier, "exploration");
-    rep.rule = "configuration grid, enumerated completely: call sets {3 small incl. missing / multiallelic / two contigs / extra fields, one of 2 600 records (~150 KiB, several 64 KiB BGZF blocks)} x container {vcf, vcf.gz, bcf, raw bcf} x BGZF layout (12: single block, one record per block, 1/7/64/4096/65280-byte blocks, empty block in front/middle/end, stored blocks, no EOF marker) x transport {path, stdin} x --threads 1..16 x 2 repetitions (fresh process = fresh hash seeds) x 2 sample configurations; every run's stdout and exit status must equal the canonical run (plain VCF by path, 1 thread). L1: the same containers through the real reader construction with set_threads, and the hash-order observer. Non-trivial = compressed multi-block container with >=2 threads, or stdin transport.".into();
+    rep.rule = "configuration grid, enumerated completely: call sets {3 small incl. missing / multiallelic / two contigs / extra fields, one of 2 600 records (~150 KiB, several 64 KiB BGZF blocks)} x container {vcf, vcf.gz, bcf, raw bcf} x BGZF layout (12: single block, one record per block, 1/7/64/4096/65280-byte blocks, empty block in front/middle/end, stored blocks, no EOF marker) x transport {path, stdin} (small call sets also: real pipe, FIFO by path, /dev/stdin; and ten file names) x --threads 1..16 x 2 repetitions (fresh process = fresh hash seeds) x 2 sample configurations; every run's stdout and exit status must equal the canonical run (plain VCF by path, 1 thread). L1: the same containers through the real reader construction with set_threads, and the hash-order observer. Non-trivial = compressed multi-block container with >=2 threads, or stdin transport.".into();
     let scratch = Scratch::new("c12");
     let smalls = small_call_sets();
     let big = big_call_set();
@@ -316,6 +316,49 @@ pub fn run(tier: Tier) -> i32 {
         exhaustive: true,
         extra: vec![],
     });
+
+    // transports beyond "regular file by path" and "regular file on fd 0": real pipes and named pipes
+    {
+        use crate::cli::{run_sfs_transport, Transport};
+        let mut tj: Vec<(usize, Container, Transport, usize)> = Vec::new();
+        for si in 0..sets.len() - 1 {
+            for c in Container::all() {
+                for tr in [Transport::StdinPipe, Transport::PathFifo, Transport::PathDevStdin] {
+                    for t in [1usize, 4] {
+                        tj.push((si, c, tr, t));
+                    }
+                }
+            }
+        }
+        let res = par_map(tj.len(), |i| {
+            let (si, c, tr, t) = tj[i];
+            let cs = sets[si].1;
+            let bytes = render(cs, c, &Layout::Fixed(4096));
+            let ts = t.to_string();
+            let o = run_sfs_transport(&["create", "--threads", &ts], &bytes, tr, c.suffix(), &scratch);
+            let can = &canon[si][0];
+            if o.code == can.code && o.signal == can.signal && o.stdout == can.stdout {
+                None
+            } else {
+                Some((
+                    format!("C12|cli|result-depends-on-transport|{}|{}", c.name(), tr.name()),
+                    format!("{} as {} through {} (--threads {t}): {} {:?} {:?}", sets[si].0, c.name(), tr.name(), o.status_str(), &o.stdout_str()[..o.stdout.len().min(200)], o.stderr_str().trim()),
+                    J::obj([("kind", J::s("c12-transport")), ("call_set", J::s(sets[si].0)), ("container", J::s(c.name())), ("transport", J::s(tr.name())), ("threads", J::u(t))]),
+                ))
+            }
+        });
+        for v in res.into_iter().flatten() {
+            rep.violation(v.0, v.1, v.2);
+        }
+        rep.part(Part {
+            name: "cli: pipes and named pipes".into(),
+            evaluations: tj.len() as u64,
+            nontrivial: tj.len() as u64,
+            note: format!("{} small call sets x 4 containers x {{real pipe on stdin, FIFO named on the command line, /dev/stdin over a pipe}} x threads {{1,4}}: identical to the canonical run", sets.len() - 1),
+            exhaustive: true,
+            extra: vec![],
+        });
+    }
 
     // real pipes (arrival in two writes) for each container of the second call set
     let cs = sets[1].1;
@@ -502,6 +545,13 @@ pub fn replay(case: &J) -> Option<Vec<String>> {
             std::fs::write(&path, render(cs, container, &Layout::Fixed(64))).ok()?;
             let o = run_sfs(&["create", "--threads", &t, path.to_str()?], Stdin::Null, &scratch);
             Some(judge(&o, &canon(0), format!("C12|cli|result-depends-on-file-name :: {set_name} as {cname} named '{name}'")))
+        }
+        "c12-transport" => {
+            let tr = crate::cli::Transport::from_name(case.get("transport")?.as_str()?)?;
+            let t = case.get("threads")?.as_i64()?.to_string();
+            let bytes = render(cs, container, &Layout::Fixed(4096));
+            let o = crate::cli::run_sfs_transport(&["create", "--threads", &t], &bytes, tr, container.suffix(), &scratch);
+            Some(judge(&o, &canon(0), format!("C12|cli|result-depends-on-transport :: {set_name} as {cname} through {}", tr.name())))
         }
         "c12-pipe" => {
             let bytes = render(cs, container, &Layout::PerUnit);
